@@ -256,6 +256,9 @@ func (nc *nodeCase) deliver(name string, sups ...supSpec) procResult {
 	}
 	nc.lastVoteRes = ""
 	nc.oracleAfterEvent(op, r)
+	if nc.mode == "pool" {
+		nc.emitPoolOrder()
+	}
 	return r
 }
 
